@@ -6,6 +6,7 @@ CONSTANTS
   MaxIter = 5
   MaxOps = 2
 INVARIANT Pauses
+INVARIANT ArgCheck
 INVARIANT Raises
 INVARIANT MuteWhenNone
 INVARIANT TargetFresh
